@@ -2018,7 +2018,7 @@ pub fn gen_c04_liveness(rng: &mut Rng, _tier: Tier) -> Value {
         // a fifth of the runs: the stream rejects every single entry (progress must not depend on success)
         "fail_all": if rng.chance(0.3) { json!(*rng.pick(&["V", "I"])) } else { Value::Null },
         // ... from the k-th entry on (a device that breaks after some good writes)
-        "fail_all_from": *rng.pick(&[0u64, 0, 1, 5, 31, 33, 50]),
+        "fail_all_from": *rng.pick(&[0u64, 0, 1, 5, 31, 33, 50, 90, 150, 260, 420, 700]),
         "report_res": "O",
         "flush_fail": [],
         // 15 %: from its k-th call on, every flush of the stream fails (a request completes after the attempt)
